@@ -33,12 +33,8 @@ theorem actGradient_eq_spec (a : Act) (n c : Nat) (s dd : Nat → Nat → ℝ) :
   | identity =>
     simp only []
     congr 1
-    unfold mk'
-    congr 1
-    apply tab_congr
-    intro i hi
-    apply tab_congr
-    intro k hk
+    apply mk'_congr
+    intro i hi k hk
     rw [sumTo_eq]
     simp only [Spec.jac, ite_mul, one_mul, zero_mul]
     rw [Finset.sum_ite_eq']
@@ -53,7 +49,7 @@ theorem actGradient_eq_spec (a : Act) (n c : Nat) (s dd : Nat → Nat → ℝ) :
     simp only [Spec.jac, ite_mul, zero_mul]
     rw [Finset.sum_ite_eq']
     simp only [mem_range, hk, if_true]
-    ring
+    split_ifs <;> simp
   | sigmoid =>
     simp only []
     congr 1
@@ -101,11 +97,157 @@ theorem actGradient_hasDerivAt (a : Act) (n c : Nat) (s dd : Nat → Nat → ℝ
     (fun l _ => (jac_hasDerivAt a c (s i) l k hk hrelu).const_mul (dd i l))
   refine h.congr_deriv ?_
   unfold Spec.actGradient
+  simp only [mk'_r, mk'_c]
   rw [get_mk'_of_lt _ hi hk, sumTo_eq]
   apply Finset.sum_congr rfl
   intro l hl
   rw [jac_congr a c _ (s i) (get_row_eq n c s i hi) l k (mem_range.mp hl) hk,
     get_mk'_of_lt dd hi (mem_range.mp hl)]
   ring
+
+/-! ### losses on the whole signal matrix -/
+
+/-- the signal with entry `(i0, k)` replaced by `t` -/
+noncomputable def updRow (s : Nat → Nat → ℝ) (i0 k : Nat) (t : ℝ) : Nat → Nat → ℝ :=
+  Function.update s i0 (Function.update (s i0) k t)
+
+theorem updRow_self (s : Nat → Nat → ℝ) (i0 k : Nat) (t : ℝ) : updRow s i0 k t i0 = Function.update (s i0) k t := by
+  unfold updRow
+  rw [Function.update_self]
+
+theorem updRow_of_ne (s : Nat → Nat → ℝ) (i0 k : Nat) (t : ℝ) {i : Nat} (h : i ≠ i0) : updRow s i0 k t i = s i := by
+  unfold updRow
+  rw [Function.update_of_ne h]
+
+theorem updRow_same (s : Nat → Nat → ℝ) (i0 k : Nat) : updRow s i0 k (s i0 k) = s := by
+  unfold updRow
+  rw [Function.update_eq_self, Function.update_eq_self]
+
+/-- `n ·` mean cross-entropy as a sum over the samples -/
+theorem n_mul_ceLoss (n c : Nat) (f : Nat → Nat → ℝ) (labels : List Nat) (hn : 0 < n)
+    (hlab : ∀ i, i < n → labels.getD i 0 < c) :
+    (n : ℝ) * Spec.ceLoss (mk' n c f) labels =
+      ∑ i ∈ range n, - Real.log (Spec.softmaxFn c (f i) (labels.getD i 0)) := by
+  unfold Spec.ceLoss
+  simp only [mk'_r, mk'_c, num_nat, num_log]
+  have hn' : (n : ℝ) ≠ 0 := Nat.cast_ne_zero.mpr (Nat.pos_iff_ne_zero.mp hn)
+  rw [mul_div_cancel₀ _ hn', sumTo_eq, ← Finset.sum_neg_distrib]
+  apply Finset.sum_congr rfl
+  intro i hi
+  have hi' := mem_range.mp hi
+  rw [softmaxFn_congr c _ (f i) (get_row_eq n c f i hi') _ (hlab i hi')]
+
+/-- **`CrossEntropy.loss_gradient` is `n ·` the derivative of the mean loss**: for every entry `(i0, k)` of the
+signal, `∂/∂ signal[i0, k] (n · mean_i (−log softmax(signal[i])[labels[i]])) = softmax(signal[i0])[k] − 1{labels[i0] = k}` -/
+theorem ceLoss_hasDerivAt (n c : Nat) (s : Nat → Nat → ℝ) (labels : List Nat) (hn : 0 < n)
+    (hlab : ∀ i, i < n → labels.getD i 0 < c) (i0 k : Nat) (hi : i0 < n) (hk : k < c) :
+    HasDerivAt (fun t => (n : ℝ) * Spec.ceLoss (mk' n c (updRow s i0 k t)) labels)
+      ((Spec.ceGradient (mk' n c s) labels).get i0 k) (s i0 k) := by
+  have hfun : (fun t => (n : ℝ) * Spec.ceLoss (mk' n c (updRow s i0 k t)) labels) =
+      fun t => ∑ i ∈ range n, - Real.log (Spec.softmaxFn c (updRow s i0 k t i) (labels.getD i 0)) := by
+    funext t
+    exact n_mul_ceLoss n c _ labels hn hlab
+  rw [hfun]
+  have h := HasDerivAt.fun_sum (u := range n)
+    (A := fun i t => - Real.log (Spec.softmaxFn c (updRow s i0 k t i) (labels.getD i 0)))
+    (A' := fun i => if i = i0 then
+      Spec.softmaxFn c (s i0) k - (if labels.getD i0 0 = k then 1 else 0) else 0) (x := s i0 k)
+    (by
+      intro i _
+      by_cases h : i = i0
+      · subst h
+        simp only [if_true, updRow_self]
+        exact ce_row_hasDerivAt c (s i) (labels.getD i 0) k (hlab i hi) hk
+      · simp only [if_neg h, updRow_of_ne s i0 k _ h]
+        exact hasDerivAt_const _ _)
+  refine h.congr_deriv ?_
+  rw [Finset.sum_ite_eq']
+  simp only [mem_range, hi, if_true]
+  unfold Spec.ceGradient
+  simp only [mk'_r, mk'_c]
+  rw [get_mk'_of_lt _ hi hk, softmaxFn_congr c _ (s i0) (get_row_eq n c s i0 hi) k hk]
+
+/-- one term of the binary cross-entropy: `−log σ(x)` for a positive target, `−log(1 − σ(x))` otherwise -/
+noncomputable def bceTerm (x : ℝ) (target : Bool) : ℝ :=
+  if target then - Real.log (Real.sigmoid x) else - Real.log (1 - Real.sigmoid x)
+
+/-- the target of channel `k` of sample `i`: `label > 0` with one channel, `label = k` with several -/
+def bceTarget (c : Nat) (labels : List Nat) (i k : Nat) : Bool :=
+  if c = 1 then decide (labels.getD i 0 > 0) else decide (labels.getD i 0 = k)
+
+theorem bceTerm_hasDerivAt (x : ℝ) (target : Bool) :
+    HasDerivAt (fun t => bceTerm t target) (Real.sigmoid x - (if target then 1 else 0)) x := by
+  cases target with
+  | true =>
+    simp only [bceTerm, if_true]
+    exact bce_pos_hasDerivAt x
+  | false =>
+    simp only [bceTerm, Bool.false_eq_true, if_false, sub_zero]
+    exact bce_neg_hasDerivAt x
+
+theorem n_mul_bceLoss (n c : Nat) (f : Nat → Nat → ℝ) (labels : List Nat) (hn : 0 < n) :
+    (n : ℝ) * Spec.bceLoss (mk' n c f) labels =
+      ∑ i ∈ range n, ∑ k ∈ range c, bceTerm (f i k) (bceTarget c labels i k) := by
+  unfold Spec.bceLoss
+  simp only [mk'_r, mk'_c, num_nat, num_log]
+  have hn' : (n : ℝ) ≠ 0 := Nat.cast_ne_zero.mpr (Nat.pos_iff_ne_zero.mp hn)
+  rw [mul_div_cancel₀ _ hn', sumTo_eq]
+  apply Finset.sum_congr rfl
+  intro i hi
+  rw [sumTo_eq]
+  apply Finset.sum_congr rfl
+  intro k hk
+  rw [sigmoid_spec_eq, get_mk'_of_lt f (mem_range.mp hi) (mem_range.mp hk)]
+  unfold bceTerm bceTarget
+  by_cases hc : c = 1
+  · simp only [hc, if_true]
+  · simp only [hc, if_false]
+
+/-- **`BinaryCrossEntropy.loss_gradient` (repaired) is `n ·` the derivative of the mean loss**: for every entry
+`(i0, k0)`, `∂/∂ signal[i0, k0] (n · mean binary cross-entropy) = σ(signal[i0, k0]) − target(i0, k0)`, the target
+being `label > 0` with one channel and `label = k0` with several. -/
+theorem bceLoss_hasDerivAt (n c : Nat) (s : Nat → Nat → ℝ) (labels : List Nat) (hn : 0 < n)
+    (i0 k0 : Nat) (hi : i0 < n) (hk : k0 < c) :
+    HasDerivAt (fun t => (n : ℝ) * Spec.bceLoss (mk' n c (updRow s i0 k0 t)) labels)
+      ((Spec.bceGradient (mk' n c s) labels).get i0 k0) (s i0 k0) := by
+  have hfun : (fun t => (n : ℝ) * Spec.bceLoss (mk' n c (updRow s i0 k0 t)) labels) =
+      fun t => ∑ i ∈ range n, ∑ k ∈ range c, bceTerm (updRow s i0 k0 t i k) (bceTarget c labels i k) := by
+    funext t
+    exact n_mul_bceLoss n c _ labels hn
+  rw [hfun]
+  have hinner : HasDerivAt (fun t => ∑ k ∈ range c, bceTerm (Function.update (s i0) k0 t k) (bceTarget c labels i0 k))
+      (∑ k ∈ range c, if k = k0 then
+        Real.sigmoid (s i0 k0) - (if bceTarget c labels i0 k0 then 1 else 0) else 0) (s i0 k0) := by
+    apply HasDerivAt.fun_sum
+    intro k _
+    by_cases h : k = k0
+    · subst h
+      simp only [if_true, Function.update_self]
+      exact bceTerm_hasDerivAt (s i0 k) _
+    · simp only [if_neg h, Function.update_of_ne h]
+      exact hasDerivAt_const _ _
+  have h := HasDerivAt.fun_sum (u := range n)
+    (A := fun i t => ∑ k ∈ range c, bceTerm (updRow s i0 k0 t i k) (bceTarget c labels i k))
+    (A' := fun i => if i = i0 then ∑ k ∈ range c, (if k = k0 then
+        Real.sigmoid (s i0 k0) - (if bceTarget c labels i0 k0 then 1 else 0) else 0) else 0) (x := s i0 k0)
+    (by
+      intro i _
+      by_cases h : i = i0
+      · subst h
+        simp only [if_true, updRow_self]
+        exact hinner
+      · simp only [if_neg h, updRow_of_ne s i0 k0 _ h]
+        exact hasDerivAt_const _ _)
+  refine h.congr_deriv ?_
+  rw [Finset.sum_ite_eq', Finset.sum_ite_eq']
+  simp only [mem_range, hi, hk, if_true]
+  unfold Spec.bceGradient
+  simp only [mk'_r, mk'_c]
+  rw [get_mk'_of_lt _ hi hk, sigmoid_spec_eq, get_mk'_of_lt s hi hk]
+  congr 1
+  unfold bceTarget
+  by_cases hc : c = 1
+  · simp only [hc, if_true, decide_eq_true_eq]
+  · simp only [hc, if_false, decide_eq_true_eq]
 
 end SkNet.Gnn
